@@ -436,7 +436,7 @@ theorem validateArgs_ok (O : PyOracle) (ps : List (Line × PPassage)) : ∀ l, O
 theorem parseStory_ok (O : PyOracle) (src : Line) : Ok (parseStory O src) T := by
   have hc := coreLoop_ok O
   have hv := validateArgs_ok O
-  unfold parseStory determineInitial
+  unfold parseStory parseLines determineInitial
   repeat (first
     | ((with_reducible show Ok (coreLoop _ _ _ _ _) _); refine hc _ _ _ _ (by omega))
     | with_reducible exact hv _ _
